@@ -32,7 +32,7 @@ func TestC16_Monitor(t *testing.T) {
 	rapid.Check(t, func(t *rapid.T) {
 		closeAt := rapid.SampledFrom([]string{"before-ready", "before-ready-root", "mid-stream", "after", "never"}).Draw(t, "closeAt")
 		handlerMode := rapid.SampledFrom([]string{"fast", "micro", "slow", "blocked"}).Draw(t, "handler")
-		pubKind := rapid.SampledFrom([]string{"root", "clone", "fclone"}).Draw(t, "publisher")
+		pubKind := rapid.SampledFrom([]string{"root", "clone", "fclone", "fclone"}).Draw(t, "publisher")
 		gate := strings.HasPrefix(closeAt, "before-ready") || rapid.Bool().Draw(t, "gateFirst")
 		w := newWorld(t, worldCfg{prop: "C16", rootFilter: -1, gateFirst: gate, perturb: rapid.Bool().Draw(t, "perturb"), seed: rapid.Uint64().Draw(t, "pseed")})
 		defer w.abort()
@@ -180,6 +180,12 @@ func TestC16_Monitor(t *testing.T) {
 				overflow = true
 			}
 			w.checkQuiet()
+			if pubKind == "fclone" && rapid.IntRange(0, 1).Draw(t, "refilterPublisher") == 0 {
+				// the publisher's own filter changes: objects leave and re-enter its view with
+				// unchanged versions (Delete, later Create of the same version): one callback each
+				w.refilter(p, rapid.SampledFrom([]int{0, 1, 2, 3, 5, 7}).Draw(t, "pf2"))
+				w.checkQuiet()
+			}
 			if m.cb.blocked() && rapid.IntRange(0, 5).Draw(t, "unblock") == 0 {
 				m.cb.unblock()
 				w.h("handler released")
